@@ -165,3 +165,22 @@ func saveConvertTo(value any, to reflect.Type) (any, error) {
 	}
 	return result, nil
 }
+
+// comparedObjects remembers which pairs of objects (the consumer's, the producer's) a compatibility check between two
+// schemas has entered. Objects are where references lead, so every cycle of a recursive schema comes back to a pair that
+// was entered before - it is taken as compatible (a contradiction, if there is one, is found where the pair was first
+// entered) - and an object that is shared between several places is compared once, not once per path that leads to it.
+type comparedObjects map[[2]*ObjectSchema]struct{}
+
+// comparesObjects is implemented by the types that contain other types: they hand the set on to what they contain.
+type comparesObjects interface {
+	validateCompatibilityIn(typeOrData any, compared comparedObjects) error
+}
+
+// validateCompatibilityIn is ValidateCompatibility as part of one comparison between two schemas.
+func validateCompatibilityIn(schema Serializable, typeOrData any, compared comparedObjects) error {
+	if container, ok := schema.(comparesObjects); ok {
+		return container.validateCompatibilityIn(typeOrData, compared)
+	}
+	return schema.ValidateCompatibility(typeOrData)
+}
